@@ -276,6 +276,9 @@ def run(cx: Cx):
             # (a scan that is skipped for some priorities - `if s.priority > 0:` - appends without having looked)
             scans = [x for x in p.events[:p.events.index(e)] if x.kind == 'loop' and
                      (_loop_scans_queue(x, Q))]
+            from .common import known_empty_on
+            if not scans and known_empty_on(p.cond, Q):
+                scans = [None]      # an empty queue has no entry to outrank: the first system is simply appended
             if not scans:
                 cx.violation('R-GUARD', add.qualname, 'scan-runs-before-tail-append',
                              f"add_system appends at the tail on a path [{p.cond!r}] that never scanned the queue for a strictly lower "
